@@ -171,10 +171,25 @@ def _mk_sample(ctx, sc, np, nS, nT, D, prefix=""):
     return th, (W, W0, V2, V1, V0, alpha), prec
 
 
+def _params(th):
+    """the sample as its own interface describes it (what ThetaHolder.save_h5 writes and equals() compares)"""
+    out = {}
+    for kind in ("private_parameters_dict", "shared_parameters_dict"):
+        for k, v in getattr(th, kind)().items():
+            out[(kind, k)] = v.tolist() if hasattr(v, "tolist") else v
+    return out
+
+
+class _Snap(list):
+    pass
+
+
 def _snapshot(th, data):
     arrs = [th.W, th.W0, th.V2, th.V1, th.V0] if hasattr(th, "V1") else [th.W, th.V2]
     arrs += [data.sample_ids, data.treatment_ids]
-    return [(a, a.tolist()) for a in arrs]
+    snap = _Snap((a, a.tolist()) for a in arrs)
+    snap.th, snap.params = th, _params(th)
+    return snap
 
 
 def _flat(x):
@@ -192,6 +207,17 @@ def _unchanged(ctx, snap, label):
         for x, y in zip(_flat(arr.tolist()), _flat(before)):
             ok = ctx.And(ok, ctx.eq(x, y))
     ctx.prove(ok, label)
+    if getattr(snap, "th", None) is not None:
+        now = _params(snap.th)
+        ctx.prove(sorted(now, key=str) == sorted(snap.params, key=str),
+                  "prediction leaves the sample's parameter set as it was (what is saved with it and compared by equals)",
+                  key="prediction changed the posterior sample's parameters")
+        same = True
+        for k in snap.params:
+            if k in now:
+                a, b = _flat(now[k]), _flat(snap.params[k])
+                same = ctx.And(same, len(a) == len(b), *[ctx.eq(x, y) for x, y in zip(a, b)])
+        ctx.prove(same, "prediction leaves every parameter of the sample unchanged", key="prediction changed the posterior sample's parameters")
 
 
 def _viab(ctx, np, sp, m):
